@@ -100,6 +100,9 @@ def check_case(acc, name, spec, idx, k, tier):
         sub["doms"][idx] = list(part_dom)
         o = S.run(sub, cfg)
         acc.c["sub_runs"] += 1
+        if o.abort == "skipped":
+            acc.c["aborted_skipped"] += 1
+            return
         if o.abort:
             acc.violation(f"{name}:sub-problem-not-solvable:{o.abort.split(':')[0]}", dict(w, error=o.abort_detail),
                           "a sub-problem could not be solved in finite time")
